@@ -35,6 +35,13 @@ func histRequests() []reqSpec {
 		{Name: "static-unsecured-body", Method: "POST", Target: "/api/plain?q=sb", Headers: map[string]string{"Content-Type": "text/plain", "Accept": "*/*"}, Body: "static body"},
 		{Name: "offer-with-parameter", Method: "GET", Target: "/api/param/5?q=op", Headers: map[string]string{"Accept": "text/plain"}},
 		{Name: "no-security", Method: "PUT", Target: "/api/open/12", Headers: map[string]string{"Content-Type": "text/plain", "Accept": "text/plain"}, Body: "open body"},
+		// edge values: principals that equal the zero value of their type; a charset spelled in upper case
+		{Name: "principal-empty-string", Method: "GET", Target: "/api/items/81?q=zs", Headers: map[string]string{"X-Key": "zero-string", "Accept": "text/plain"}},
+		{Name: "principal-zero-int", Method: "GET", Target: "/api/list?q=zi", Headers: map[string]string{"X-Key": "zero-int", "Accept": "application/json"}},
+		{Name: "principal-false", Method: "GET", Target: "/api/items/82?q=zb", Headers: map[string]string{"X-Key": "zero-bool", "Accept": "text/plain"}},
+		{Name: "principal-zero-struct", Method: "GET", Target: "/api/items/83?q=zt", Headers: map[string]string{"X-Key": "zero-struct", "Accept": "text/plain"}},
+		{Name: "charset-upper-case", Method: "POST", Target: "/api/plain?q=cu", Headers: map[string]string{"Content-Type": "text/plain; charset=UTF-8", "Accept": "*/*"}, Body: "upper"},
+		{Name: "charset-mixed-case-json", Method: "POST", Target: "/api/items/84?q=cm", Headers: map[string]string{"Content-Type": "application/json; Charset=Utf-8", "X-Key": "good-cm", "Accept": "application/json"}, Body: `{"v":"CM"}`},
 	}
 }
 
